@@ -57,6 +57,29 @@ class RangeDomain:
         self.panics = {}      # (fn path, bb) of a diverging call the abstract execution reached -> {root}
         self.completed = set()   # roots whose abstract execution ran to the end
 
+    def on_write(self, ex, fr, pl, val):
+        """observes stores into the watched private integer fields (field-invariant inference)"""
+        watch = getattr(self, "watch", None)
+        if not watch:
+            return
+        last = pl["p"][-1]
+        if not (isinstance(last, dict) and "f" in last):
+            return
+        tys = place_types(fr.body, {"l": pl["l"], "p": pl["p"][:-1]})
+        head = (tys[-1] or "").split("<")[0].strip()
+        key = (head, last["f"])
+        if key in watch:
+            if isinstance(val, bool):
+                val = int(val)
+            if isinstance(val, int):
+                lo, hi = val, val
+            elif isinstance(val, Rng):
+                lo, hi = val.lo, val.hi
+            else:
+                r = ty_range(last.get("ty") or "")
+                lo, hi = r if r else (None, None)
+            self.observed.setdefault(key, []).append((lo, hi))
+
     # ------------------------------------------------------------ helpers
     def iv(self, ex, fr, operand, val):
         """Interval of an operand value; falls back to the operand's static type."""
@@ -868,6 +891,9 @@ def rule_nopanic_core(prop, repo_rel, entries, cv_factory):
         if not is_const_init and (t.get("fn") or {}).get("name") in ("unwrap", "expect") and guarded_unwrap(repo, b, bb):
             R.ok(sample={"site": loc_of(b, bb), "fn": d, "accepted_because": "dominated by the true edge of is_some()/is_ok() on the same value"})
             continue
+        if not is_const_init and interval_unreachable(F, b, bb):
+            R.ok(sample={"site": loc_of(b, bb), "fn": d, "accepted_because": "the interval execution of the function (private integer fields inside their inferred invariants) never reaches this panic"})
+            continue
         R.check(is_const_init, key, "%s can panic (%s) and is reachable from the entry points with caller-controlled data" % (d, dd.split("<")[0]), loc_of(b, bb), d,
                 sample={"site": loc_of(b, bb), "fn": d, "accepted_because": "parameterless constant initialiser: input-independent, exercised by every use"} if is_const_init else None)
     return R.finish()
@@ -943,6 +969,28 @@ def rule_profile_diff(prop, ctx_repo_dev, repo_rel, ls_factory):
     return R.finish()
 
 
+def interval_unreachable(F, b, bb):
+    """the interval execution of the function (for a closure: of the function that builds it) from unknown inputs — private integer
+    fields within their inferred invariants — runs to the end and never enters block `bb` of `b` (a diverging call)"""
+    p = b.rec["path"]
+    root = p.split("::{closure")[0] if b.rec["kind"] == "Closure" and p.split("::{closure")[0] in F.bodies else p
+    key = ("_iu", root)
+    cache = F.__dict__.setdefault("_interval_runs", {})
+    if key not in cache:
+        cache[key] = None
+        try:
+            dom = RangeDomain(F)
+            from .roles import int_helper_paths
+            int_fns = set(int_helper_paths(F)) | int_param_functions(F)      # callees with integer parameters are analysed in context
+            run_top(F, dom, F.bodies[root], lambda d: d in int_fns)
+            if root in dom.completed:
+                cache[key] = set(dom.panics)
+        except Exception:
+            cache[key] = None
+    reached = cache[key]
+    return reached is not None and (p, bb) not in reached
+
+
 def debug_assert_unreachable(repo, b, bb):
     """Can the panic of a debug_assert! in a function that is not byte-level be reached?  Two finite deciders, either suffices:
     (i) the byte machine with opaque arguments — every opaque predicate gets one answer per path, helpers of the same file are
@@ -952,15 +1000,8 @@ def debug_assert_unreachable(repo, b, bb):
     F = repo.F
     p = b.rec["path"]
     # (ii) intervals
-    try:
-        dom = RangeDomain(F)
-        from .roles import int_helper_paths
-        int_fns = int_helper_paths(F)
-        run_top(F, dom, b, lambda d: d in int_fns)
-        if p in dom.completed and (p, bb) not in dom.panics:
-            return True, "interval execution from unknown inputs never reaches the panic"
-    except Exception:
-        pass
+    if interval_unreachable(F, b, bb):
+        return True, "interval execution from unknown inputs never reaches the panic"
     # (i) opaque predicates, one answer per path
     try:
         from core.bytex import Machine, T as BT, Ref as BRef
@@ -1039,6 +1080,113 @@ def ordinal(body, bb, kind):
     return n
 
 
+def field_invariants(F):
+    """Interval invariants of private integer fields of crate-local structs: {(struct path, field index): (lo, hi)}.
+    A field qualifies when it is not public, every construction of the struct gives it a literal, and it is never borrowed
+    mutably; the candidate interval (hull of those literals) is then closed under every function that stores into the field,
+    each analysed by the interval execution with the struct's fields assumed inside the candidate (an inductive invariant:
+    established by every constructor, preserved by every writer; nothing outside the crate can write a private field)."""
+    if getattr(F, "_field_inv", None) is not None:
+        return F._field_inv
+    F._field_inv = {}
+    cands = {}
+    for ap, adt in F.adts.items():
+        if adt.get("kind") != "Struct" or len(adt.get("variants") or []) != 1:
+            continue
+        for i, f in enumerate(adt["variants"][0].get("fields") or []):
+            r = ty_range((f.get("ty") or "").strip())
+            if r and (f.get("ty") or "").strip() != "bool" and f.get("vis") != "Public":
+                cands[(ap, i)] = {"consts": [], "ok": True, "writers": set(), "ty": f["ty"].strip()}
+    if not cands:
+        return F._field_inv
+    for b in F.fn_bodies():
+        for blk in b.blocks:
+            for st in blk["stmts"]:
+                if st["k"] != "assign":
+                    continue
+                rv = st["rv"]
+                if rv["k"] == "aggregate" and rv.get("agg") == "adt":
+                    for (ap, i), c in cands.items():
+                        if rv.get("adt") == ap and i < len(rv["ops"]):
+                            op = rv["ops"][i]
+                            if op.get("k") == "const" and "int" in op:
+                                c["consts"].append(int(op["int"]))
+                            else:
+                                c["ok"] = False
+                for pl, is_mut_borrow in ((st["place"], False), (rv.get("place") if rv["k"] in ("ref", "rawptr") and rv.get("mut") else None, True)):
+                    if not pl or not pl["p"]:
+                        continue
+                    for j, e in enumerate(pl["p"]):
+                        if isinstance(e, dict) and "f" in e:
+                            try:
+                                base = (place_types(b, {"l": pl["l"], "p": pl["p"][:j]})[-1] or "").split("<")[0].strip()
+                            except Exception:
+                                continue
+                            c = cands.get((base, e["f"]))
+                            if c is None:
+                                continue
+                            if is_mut_borrow:
+                                c["ok"] = False
+                            elif j == len(pl["p"]) - 1:
+                                c["writers"].add(b.rec["path"])
+                            else:
+                                c["ok"] = False
+    live = {k: c for k, c in cands.items() if c["ok"] and c["consts"]}
+    inv = {k: (min(c["consts"]), max(c["consts"])) for k, c in live.items()}
+    from .roles import int_helper_paths
+    int_fns = int_helper_paths(F)
+    moved = {}
+    for _round in range(8):
+        F._field_inv = dict(inv)
+        grew = False
+        # widening: a bound that keeps moving jumps to the bound of the field's type (then it either is stable or the field drops out)
+        for k in list(inv):
+            tr_ = ty_range(live[k]["ty"])
+            lo_m, hi_m = moved.get((k, "lo"), 0), moved.get((k, "hi"), 0)
+            if lo_m >= 2:
+                inv[k] = (tr_[0], inv[k][1])
+            if hi_m >= 2:
+                inv[k] = (inv[k][0], tr_[1])
+        F._field_inv = dict(inv)
+        for k, c in live.items():
+            if k not in inv:
+                continue
+            for w in sorted(c["writers"]):
+                dom = RangeDomain(F)
+                dom.watch = {k}
+                dom.observed = {}
+                try:
+                    run_top(F, dom, F.bodies[w], lambda d: d in int_fns)
+                except Exception:
+                    inv.pop(k, None)
+                    break
+                if w not in dom.completed:
+                    inv.pop(k, None)
+                    break
+                for lo, hi in dom.observed.get(k, []):
+                    if lo is None:
+                        inv.pop(k, None)
+                        break
+                    cur = inv[k]
+                    new = (min(cur[0], lo), max(cur[1], hi))
+                    if new != cur:
+                        if new[0] < cur[0]:
+                            moved[(k, "lo")] = moved.get((k, "lo"), 0) + 1
+                        if new[1] > cur[1]:
+                            moved[(k, "hi")] = moved.get((k, "hi"), 0) + 1
+                        inv[k] = new
+                        grew = True
+                if k not in inv:
+                    break
+        if not grew:
+            break
+    else:
+        inv = {}
+    tr = {k: ty_range(live[k]["ty"]) for k in inv}
+    F._field_inv = {k: v for k, v in inv.items() if tr[k] and tr[k][0] <= v[0] and v[1] <= tr[k][1]}
+    return F._field_inv
+
+
 def shape_value(F, ty, depth=0):
     """an unknown value of the given type with the structure the type fixes: struct fields, array lengths, integer ranges"""
     ty = (ty or "").strip()
@@ -1053,9 +1201,22 @@ def shape_value(F, ty, depth=0):
     m = re.match(r"^ark_ff::(?:biginteger::)?BigInt<(\d+)>$", ty)
     if m and int(m.group(1)) <= 64:
         return Adt("ark_ff::BigInt", "BigInt", [Tup([Rng(0, 2 ** 64 - 1) for _ in range(int(m.group(1)))])])
-    adt = F.adts.get(ty)
-    if adt and not adt.get("generic") and adt.get("kind") == "Struct" and len(adt.get("variants") or []) == 1:
-        return Adt(ty, adt["variants"][0]["name"], [shape_value(F, f.get("ty"), depth + 1) for f in adt["variants"][0].get("fields") or []])
+    head = ty.split("<")[0].strip()
+    adt = F.adts.get(head)
+    if adt and adt.get("kind") == "Struct" and len(adt.get("variants") or []) == 1 and (not adt.get("generic") or re.fullmatch(r"[A-Za-z0-9_:]+<('[a-z_]+(, )?)+>", ty)):
+        inv = field_invariants(F) if getattr(F, "_field_inv", None) is not None or not getattr(F, "_field_inv_busy", False) else {}
+        fields = []
+        for i, f in enumerate(adt["variants"][0].get("fields") or []):
+            fty = (f.get("ty") or "").strip()
+            if (head, i) in inv:
+                fields.append(Rng(*inv[(head, i)]) if inv[(head, i)][0] != inv[(head, i)][1] else inv[(head, i)][0])
+            elif fty.startswith("&") and depth < 3:
+                hf = Frame(None, [])
+                hf.env[0] = shape_value(F, re.sub(r"^&('[a-z_]+ )?(mut )?", "", fty), depth + 1)
+                fields.append(Ref(hf, 0))
+            else:
+                fields.append(shape_value(F, fty, depth + 1))
+        return Adt(head, adt["variants"][0]["name"], fields)
     return TOP
 
 
